@@ -179,6 +179,10 @@ impl<'a> LongChain<'a> {
     pub fn truncate(&mut self, len: usize) {
         #[cfg(debug_assertions)]
         self.verify_invariants();
+        if len >= self.total_remaining_len {
+            // Same as `Bytes::truncate`: no effect if `len` is not shorter
+            return;
+        }
         let mut remaining = len;
         let mut truncate_index = 0;
         while truncate_index < self.data.len() {
